@@ -104,6 +104,38 @@ partial def pTerms (n : Nat) (r : List String) : Option (List Term × List Strin
   | none => none
 end
 
+/- operator expressions: what the OPERATORS build, via the model's smart constructors `plus` / `alt` / `mul`.
+  + x y | x y  << x y  >> x y  & x y  / x y  * x y  % x  .map <fn> x  .sep_by x sep  .until x p
+  Many <lower> x  Opt <value> x  Wrapper x  Sequence <n> x…  Choice <n> x…  Lift <fn>  — anything else is a leaf term -/
+mutual
+partial def pOp : P Term
+  | "+" :: r => do let (a, r) ← pOp r; let (b, r) ← pOp r; pure (plus a b, r)
+  | "|" :: r => do let (a, r) ← pOp r; let (b, r) ← pOp r; pure (alt a b, r)
+  | "*" :: r => do let (a, r) ← pOp r; let (b, r) ← pOp r; let t ← mul a b; pure (t, r)
+  | "<<" :: r => do let (a, r) ← pOp r; let (b, r) ← pOp r; pure (.keepLeft a b, r)
+  | ">>" :: r => do let (a, r) ← pOp r; let (b, r) ← pOp r; pure (.keepRight a b, r)
+  | "&" :: r => do let (a, r) ← pOp r; let (b, r) ← pOp r; pure (.followedBy a b, r)
+  | "/" :: r => do let (a, r) ← pOp r; let (b, r) ← pOp r; pure (.notFollowedBy a b, r)
+  | "%" :: r => pOp r
+  | ".map" :: r => do let (f, r) ← pFn r; let (a, r) ← pOp r; pure (.map a f, r)
+  | ".sep_by" :: r => do let (a, r) ← pOp r; let (b, r) ← pOp r; pure (sepBy a b, r)
+  | ".until" :: r => do let (a, r) ← pOp r; let (b, r) ← pOp r; pure (.until a b, r)
+  | "Many" :: l :: r => do let l ← decNat l; let (a, r) ← pOp r; pure (.many a l, r)
+  | "Opt" :: r => do let (d, r) ← pVal r; let (a, r) ← pOp r; pure (.opt a d, r)
+  | "Wrapper" :: r => do let (a, r) ← pOp r; pure (.wrapper a, r)
+  | "Sequence" :: n :: r => do let n ← decNat n; let (ts, r) ← pOps n r; pure (.seq ts, r)
+  | "Choice" :: n :: r => do let n ← decNat n; let (ts, r) ← pOps n r; pure (.choice ts, r)
+  | "Lift" :: r => do let (f, r) ← pFn r; pure (.lift f [], r)
+  | r => pTerm r
+partial def pOps (n : Nat) (r : List String) : Option (List Term × List String) :=
+  if n = 0 then some ([], r) else
+  match pOp r with
+  | some (t, r') => match pOps (n - 1) r' with
+    | some (ts, r'') => some (t :: ts, r'')
+    | none => none
+  | none => none
+end
+
 def toks (s : String) : List String := (s.splitOn " ").filter (· ≠ "")
 
 partial def showVal : Val → String
@@ -147,6 +179,17 @@ def handle (fs : List String) : String :=
         | _ => "bad-op"
       | none => "bad-op"
     | _, _, _, _ => "bad-op"
+  | ["ops", opexpr, readback, input] =>
+    -- build the term the operator expression denotes (plus / alt / mul), compare it with the term read back from
+    -- the REAL object the operators built, and run the model on it (fuel = bound)
+    match pOp (toks opexpr), pTerm (toks readback), decStr input with
+    | some (t, []), some (t', []), some inp =>
+      let fuel := bound [] t inp.length
+      let (r, σ) := run [] inp fuel t 0 St.init
+      let (o, _) := call [] inp fuel t
+      let same := toString (repr t) == toString (repr t')
+      s!"same={if same then 1 else 0}|{showRes r}|{if σ.ferr then 1 else 0}|{",".intercalate (σ.tags.map showVal)}|{showOutcome o}|wf={if WellFormed [] t then 1 else 0}"
+    | _, _, _ => "bad-op"
   | ["json", input] =>
     -- the TRANSLATED JSON grammar (IV/Gen/Grammars.lean); fuel = the bound of no_divergence
     match decStr input with
